@@ -3,6 +3,7 @@ package main
 import (
 	"go/ast"
 	"go/token"
+	"strconv"
 	"strings"
 )
 
@@ -23,6 +24,9 @@ func callArg(root ast.Node, fn string, idx int) (string, bool) {
 		}
 		if c, ok := n.(*ast.CallExpr); ok && exprString(c.Fun) == fn && len(c.Args) > idx {
 			res, found = exprString(c.Args[idx]), true
+			if v, ok := constInt(c.Args[idx]); ok {
+				res = strconv.FormatInt(v, 10)
+			}
 		}
 		return true
 	})
@@ -159,4 +163,56 @@ func extractFacts() {
 	}
 	// --- go.mod language version (loop variable semantics)
 	extractShapes()
+}
+
+// constInt evaluates an integer constant expression built from literals (1<<16, 64*1024, -1, (3)).
+func constInt(e ast.Expr) (int64, bool) {
+	switch x := e.(type) {
+	case *ast.BasicLit:
+		if x.Kind != token.INT {
+			return 0, false
+		}
+		v, err := strconv.ParseInt(x.Value, 0, 64)
+		return v, err == nil
+	case *ast.ParenExpr:
+		return constInt(x.X)
+	case *ast.UnaryExpr:
+		v, ok := constInt(x.X)
+		if !ok {
+			return 0, false
+		}
+		switch x.Op {
+		case token.SUB:
+			return -v, true
+		case token.ADD:
+			return v, true
+		}
+	case *ast.BinaryExpr:
+		a, ok1 := constInt(x.X)
+		b, ok2 := constInt(x.Y)
+		if !ok1 || !ok2 {
+			return 0, false
+		}
+		switch x.Op {
+		case token.ADD:
+			return a + b, true
+		case token.SUB:
+			return a - b, true
+		case token.MUL:
+			return a * b, true
+		case token.QUO:
+			if b != 0 {
+				return a / b, true
+			}
+		case token.SHL:
+			if b >= 0 && b < 63 {
+				return a << uint(b), true
+			}
+		case token.SHR:
+			if b >= 0 && b < 63 {
+				return a >> uint(b), true
+			}
+		}
+	}
+	return 0, false
 }
